@@ -1,4 +1,6 @@
 import ErgoVerif.Lemmas.TM
+import ErgoVerif.Lemmas.TMTerminate
+import ErgoVerif.Lemmas.LinkRace
 import ErgoVerif.Model.Guard
 /-!
 # C14 — remote failure detection (node down part)
@@ -186,5 +188,88 @@ example : (⟨"SendTerminatePID", "target", "PID", true, 2, 0⟩ : Row) ∈ tabl
 example : call ⟨"SendPID", "to", "PID", false, 1, 0⟩ 99 100 7 = (.errIncarnation, 0) := by decide
 
 end Incarnation
+
+/-! ### remote termination while connected: the reason travels -/
+section RemoteTermination
+open ErgoVerif.Gen.Guard ErgoVerif.GuardModel
+
+/-- on the holder's node: `RouteTerminate*` (run when the Terminate frame arrives) gives every local holder of the target
+    exactly one exit/down carrying the reason of the frame, and nobody else anything -/
+theorem C14_remote_termination_exactly_once {s : St} (h : Inv s) (self : Node) (t : Target) (reason : Nat)
+    (c : Pid) (m : Bool) :
+    (terminateLocal self s t reason).2.count ⟨c, if m then .down else .exit, t, reason⟩ =
+      if (⟨c, t, m⟩ : Key) ∈ s.rel ∧ c.node = self then 1 else 0 :=
+  terminateLocal_exactly_once h self t reason c m
+
+theorem C14_remote_termination_reason (self : Node) (s : St) (t : Target) (reason : Nat) (x : TNotif)
+    (hx : x ∈ (terminateLocal self s t reason).2) : x.target = t ∧ x.reason = reason ∧ x.to.node = self :=
+  terminateLocal_reason self s t reason x hx
+
+/-- two nodes: the target lives on `nb` and terminates with `reason`; a holder `c` on another node `na` is recorded on both
+    nodes (as RouteLink*/RouteMonitor* do).  Then (1) `nb` sends exactly one Terminate frame to `na`, (2) for pid/alias
+    targets the frame passes the incarnation guard whatever the creations of the two nodes are, (3) `na`, running
+    RouteTerminate* with the reason of the frame, delivers exactly one exit/down with that reason to `c`, and
+    (4) afterwards neither table holds the relation. -/
+theorem C14_remote_termination_end_to_end {sa sb : St} (ha : Inv sa) (hb : Inv sb) (na nb : Node) (hne : na ≠ nb)
+    (t : Target) (c : Pid) (m : Bool) (reason : Nat) (hc : c.node = na)
+    (hka : (⟨c, t, m⟩ : Key) ∈ sa.rel) (hkb : (⟨c, t, m⟩ : Key) ∈ sb.rel) :
+    (terminateFrames nb sb t).count na = 1 ∧
+    (∀ r ∈ table, r.ptype ≠ "" → r.localSubject = true → ∀ creA creB, call r creB creA creB = (.proceeds, 0)) ∧
+    (terminateLocal na sa t reason).2.count ⟨c, if m then .down else .exit, t, reason⟩ = 1 ∧
+    (∀ k ∈ (terminateLocal na sa t reason).1.rel, k.target ≠ t) ∧
+    (∀ k ∈ (terminateLocal nb sb t reason).1.rel, k.target ≠ t) := by
+  refine ⟨?_, ?_, ?_, terminateLocal_clears ha na t reason, terminateLocal_clears hb nb t reason⟩
+  · rw [(terminateFrames_nodup nb sb t).count, if_pos]
+    exact hc ▸ terminateFrames_complete hb nb t c m hkb (by rw [hc]; exact hne)
+  · intro r hr hp hl creA creB
+    exact C14_terminate_announced r hr hp hl creA creB
+  · rw [terminateLocal_exactly_once ha na t reason c m, if_pos ⟨hka, hc⟩]
+
+end RemoteTermination
+
+/-! ### relations created while the connection is being lost -/
+section Race
+open ErgoVerif.LinkRace
+
+/-- full statement for relations that are being created concurrently with a node-down: once node `n` went down and no
+    later request about a target on `n` was answered (no new connection), then, when every answered request has been
+    recorded, no relation on a target of `n` is left in the table (each one was cleaned up, hence notified by
+    `C14_node_down_exactly_once`) -/
+def C14_race_full : Prop :=
+  ∀ (tr1 tr2 : List Ev) (n : Node),
+    (∀ e ∈ tr2, ∀ k, e = Ev.answered k → k.target.onNode n = false) →
+    (run init (tr1 ++ [Ev.down n] ++ tr2)).pending = [] →
+    ∀ k ∈ (run init (tr1 ++ [Ev.down n] ++ tr2)).tm.rel, k.target.onNode n = false
+
+/-- the current code refutes it: answer, node-down, then the local Add — the relation is recorded after the cleanup,
+    nobody is ever notified (replayed on the real node by the harness through the yield point
+    `RouteLinkPID:remote:before-add`) -/
+theorem C14_race_counterexample : ¬ C14_race_full := by
+  intro h
+  have := h [.answered ⟨⟨1, 1001, 7⟩, .pid ⟨2, 1005, 9⟩, false⟩] [.add ⟨⟨1, 1001, 7⟩, .pid ⟨2, 1005, 9⟩, false⟩] 2
+    (by intro e he k hk; simp at he; subst he; cases hk) (by decide)
+    ⟨⟨1, 1001, 7⟩, .pid ⟨2, 1005, 9⟩, false⟩ (by decide)
+  revert this
+  decide
+
+/-- partial: if the local Add of every answered request on `n` happens before the node-down (request and record are
+    not separated by it), the statement holds for all traces -/
+theorem C14_race_partial (tr1 tr2 : List Ev) (n : Node)
+    (hadd : ∀ e ∈ tr2, ∀ k, e = Ev.add k → k.target.onNode n = false) :
+    ∀ k ∈ (run init (tr1 ++ [Ev.down n] ++ tr2)).tm.rel, k.target.onNode n = false := by
+  rw [run_append, run_append]
+  have hi : TM.Inv (run init tr1).tm := LinkRace.run_inv tr1 init_inv
+  exact run_clean tr2 (LinkRace.step_inv hi _) (down_clean hi n) hadd
+
+/-- and the notifications of that node-down are exactly-once for what was recorded at that moment -/
+theorem C14_race_partial_notified (tr1 : List Ev) (n : Node) (c : Pid) (t : Target) (m : Bool) :
+    (routeNodeDown (run init tr1).tm n).2.count ⟨c, if m then .down else .exit, t⟩ =
+      if (⟨c, t, m⟩ : Key) ∈ (run init tr1).tm.rel ∧ t.onNode n = true ∧ c.node ≠ n then 1 else 0 :=
+  C14_node_down_exactly_once (LinkRace.run_inv tr1 init_inv) n c t m
+
+example : (run init [.answered ⟨⟨1, 1001, 7⟩, .pid ⟨2, 1005, 9⟩, false⟩, .add ⟨⟨1, 1001, 7⟩, .pid ⟨2, 1005, 9⟩, false⟩, .down 2]).notifs.length = 1 := by
+  decide
+
+end Race
 
 end ErgoVerif.Props.C14
